@@ -170,10 +170,10 @@ func evalC04Ubar(t *tm.Term) string {
 }
 
 func runC04(c *core.Ctx, r *core.Result) {
-	p := plan{fullDepth: 2, coreDepth: 3, strDepth: 1, alphabet: tm.REG}
+	p := plan{fullDepth: 2, coreDepth: 3, strDepth: 2, alphabet: tm.REGE}
 	subsetDepth := 2
 	if c.Thorough() {
-		p = plan{fullDepth: 3, coreDepth: 4, strDepth: 2, alphabet: tm.REG}
+		p = plan{fullDepth: 3, coreDepth: 4, strDepth: 2, alphabet: tm.REGE}
 		subsetDepth = 3
 	}
 	r.Bounds = fmt.Sprintf("%s; for each tree every subset S of the wire's type keys (all 2^n for depth<=%d and n<=8, else {all, singletons}) as 'unknown at the intermediary'; plus the intermediary that cannot unmarshal any payload; history origin -> U(S) -> K compared with origin -> K", p, subsetDepth)
@@ -188,6 +188,10 @@ func runC04(c *core.Ctx, r *core.Result) {
 			}
 			jsonUnmarshal(c.Replay, &rp)
 			subsets = [][]string{rp.S}
+		} else if nonDefaultStrings(t) != "" {
+			// string variants: knowing, fully unknowing and payload-blind
+			// intermediaries (the subsets were explored on the token variant)
+			subsets = append(subsets, nil, keys)
 		} else if t.Depth() <= subsetDepth && len(keys) <= 8 {
 			tm.Subsets(keys, func(sub []string) { subsets = append(subsets, sub) })
 		} else {
